@@ -37,6 +37,9 @@ type Packet struct {
 	Prio  bool
 	EOF   bool
 	Tag   string // set by adversaries: "dup", "mutated", ...
+	// NoDelay delivers without letting fake time pass (adversarial injections
+	// whose effect is compared before/after must not race with timers).
+	NoDelay bool
 	SentT time.Time
 }
 
@@ -318,7 +321,9 @@ func (n *Net) DeliverRaw(p *Packet) {
 	// microsecond range because deliveries are serialised by the harness: a
 	// drain of thousands of frames must not look like seconds of network
 	// stall to the keep-alive and hello timeouts of the routers.
-	time.Sleep(wire)
+	if !p.NoDelay {
+		time.Sleep(wire)
+	}
 	if p.EOF {
 		to.Close(nil)
 		return
